@@ -144,6 +144,20 @@ func randCred(r *Rng, serialized bool) *ACred {
 		c.TopTypes = []string{c.TypeName, "VerifiableCredential"}
 	}
 	c.RevNonce = r.U64() >> uint(r.Intn(64))
+	if r.Chance(30) {
+		// a context re-published under the same URL (or served differently by another loader), and types that keep their
+		// name and IRI from one context document to the next: the same context list and type, another context document -
+		// with or without a serialization attribute, or with another one
+		old := c.TypeName
+		c.TypeName = "KYCPoolCredential"
+		c.TypeURL = fmt.Sprintf("https://ctx.example/pool-%d.jsonld", r.Intn(2))
+		c.TypeIRI = "urn:uuid:0000pool-type"
+		for i, t := range c.TopTypes {
+			if t == old {
+				c.TopTypes[i] = c.TypeName
+			}
+		}
+	}
 	return c
 }
 
